@@ -39,7 +39,7 @@ m("C04", "C04-metaop2-right-first", "R04-events:metaOp2:left-first", ("state.go"
 m("C05", "C05-inner-arm-no-currentFrame", "R05-restore:(*LState).PCall$1$1:currentFrame=", ("state.go", "\t\t\t\t\t\tls.stack.SetSp(sp)\n\t\t\t\t\t\tls.currentFrame = ls.stack.Last()\n\t\t\t\t\t\tls.closeUpvalues(base)", "\t\t\t\t\t\tls.stack.SetSp(sp)\n\t\t\t\t\t\tls.closeUpvalues(base)"))
 m("C05", "C05-panic-mode-not-restored", "R05-restore:(*LState).PCall$1:Panic=oldpanic", ("state.go", "\tdefer func() {\n\t\tls.Panic = oldpanic\n\t\tls.hasErrorFunc = false", "\tdefer func() {\n\t\tls.hasErrorFunc = false"))
 m("C05", "C05-outer-arm-no-settop", "R05-restore:(*LState).PCall$1:reg.SetTop(base)", ("state.go", "\t\t\tls.closeUpvalues(base)\n\t\t\tls.reg.SetTop(base)\n\t\t}\n\t\tls.stack.SetSp(sp)", "\t\t\tls.closeUpvalues(base)\n\t\t\tif errfunc == nil {\n\t\t\t\tls.reg.SetTop(base)\n\t\t\t}\n\t\t}\n\t\tls.stack.SetSp(sp)"))
-m("C05", "C05-dostring-unprotected", "R05-convert:(*LState).DoString:via-PCall", ("auxlib.go", "\t\tls.Push(fn)\n\t\treturn ls.PCall(0, MultRet, nil)\n\t}\n}\n\n/* }}} */\n\n/* GopherLua original APIs {{{ */", "\t\tls.Push(fn)\n\t\tls.Call(0, MultRet)\n\t\treturn nil\n\t}\n}\n\n/* }}} */\n\n/* GopherLua original APIs {{{ */"))
+m("C05", "C05-dostring-unprotected", "R05-convert:(*LState).DoString:via-PCall", ("auxlib.go", "\t\tif err := ls.pushProtected(fn); err != nil {\n\t\t\treturn err\n\t\t}\n\t\treturn ls.PCall(0, MultRet, nil)\n\t}\n}\n\n/* }}} */\n\n/* GopherLua original APIs {{{ */", "\t\tif err := ls.pushProtected(fn); err != nil {\n\t\t\treturn err\n\t\t}\n\t\tls.Call(0, MultRet)\n\t\treturn nil\n\t}\n}\n\n/* }}} */\n\n/* GopherLua original APIs {{{ */"))
 # ---- C06
 m("C06", "C06-resume-dead-check-dropped", "R06-guard:resumeThread:not-dead", ("coroutinelib.go", "\tif th.Dead {\n\t\tmsg := \"can not resume a dead thread\"\n\t\tif wrapped {\n\t\t\tL.RaiseError(msg)\n\t\t\treturn 0\n\t\t}\n\t\tL.Push(LFalse)\n\t\tL.Push(LString(msg))\n\t\treturn 2\n\t}\n", ""))
 m("C06", "C06-wrapped-arm-no-release", "R06-release:threadRun$1", ("vm.go", "\t\t\t\t\tL.G.CurrentThread = parent\n\t\t\t\t\tL.Parent = nil\n\t\t\t\t\tL.kill()\n", ""))
@@ -318,5 +318,10 @@ m("C08", "C08-read-error-is-a-nul-byte", "R08-eof:readNext:any-read-error-ends-t
 for _p in ("C05", "C12"):
     m(_p, _p + "-dostring-pushes-unprotected", "R05-convert:DoString:nothing-raises-before-the-protection", ("auxlib.go", "func (ls *LState) DoString(source string) error {\n\tif fn, err := ls.LoadString(source); err != nil {\n\t\treturn err\n\t} else {\n\t\tif err := ls.pushProtected(fn); err != nil {\n\t\t\treturn err\n\t\t}\n", "func (ls *LState) DoString(source string) error {\n\tif fn, err := ls.LoadString(source); err != nil {\n\t\treturn err\n\t} else {\n\t\tls.Push(fn)\n"))
     m(_p, _p + "-callbyparam-pushes-unprotected", "R05-convert:CallByParam:nothing-raises-before-the-protection", ("state.go", "\tif cp.Protect {\n\t\tif err := ls.pushProtected(cp.Fn, args...); err != nil {\n\t\t\treturn err\n\t\t}\n\t\treturn ls.PCall(len(args), cp.NRet, cp.Handler)\n\t}\n\tls.Push(cp.Fn)\n\tfor _, arg := range args {\n\t\tls.Push(arg)\n\t}\n", "\tls.Push(cp.Fn)\n\tfor _, arg := range args {\n\t\tls.Push(arg)\n\t}\n\tif cp.Protect {\n\t\treturn ls.PCall(len(args), cp.NRet, cp.Handler)\n\t}\n"))
+
+m("C02", "C02-tailcall-moves-one-slot-less", "R02-tailframe:TAILCALL:moves-the-whole-frame", ("vm.go", "\t\t\t\t\tn := reg.Top() - RA\n", "\t\t\t\t\tn := reg.Top() - RA - 1\n"))
+m("C04", "C04-unm-handler-one-argument", "R04-events:handler[OP_UNM]:handler-gets-operand-twice", ("vm.go", "\t\t\t\t\treg.Push(unaryv)\n\t\t\t\t\treg.Push(unaryv)\n\t\t\t\t\tL.Call(2, 1)\n", "\t\t\t\t\treg.Push(unaryv)\n\t\t\t\t\tL.Call(1, 1)\n"))
+m("C07", "C07-bulk-move-across-jump-target", "R07-skipgroup:patchCode:bulk-move-ends-at-jump-targets", ("compile.go", "\t// the instructions a jump can land on: a bulk move must not swallow one of them\n\ttarget := make(map[int]bool, len(context.labelPc))\n\tfor _, lpc := range context.labelPc {\n\t\ttarget[lpc+1] = true\n\t}\n", ""), ("compile.go", "\t\tif moven > 0 && target[pc] {\n\t\t\t// a jump lands here: the group ends before this instruction\n\t\t\tif moven > 1 {\n\t\t\t\tcontext.Code.SetOpCode(pc-moven, OP_MOVEN)\n\t\t\t\tcontext.Code.SetC(pc-moven, intMin(moven-1, opMaxArgsC))\n\t\t\t}\n\t\t\tmoven = 0\n\t\t}\n", ""))
+m("C17", "C17-function-statement-line-of-parenthesis", "R17-lines:parser:function-statement-defined-at-its-keyword", ("parse/parser.go", "\t\t\tyyDollar[3].funcexpr.SetLine(yyDollar[1].token.Pos.Line) // linedefined of a function statement is the line of its keyword\n", ""))
 if __name__ == "__main__":
     main()
